@@ -5,6 +5,7 @@ from props import C05 as _c5
 
 PID = "C06"
 RUNNER = "impl_m1.py"
+VM_CROSSCHECK = True
 N = {"quick": 2000, "thorough": 80000}
 LEVEL_RULE = ("receivers and inserted events as C05 (sequences with nested sequences / simultaneities, simultaneities of "
               "containers with unequal voices; inserted leaf / sequence / simultaneity of length 0 .. 6 units); start drawn from child "
